@@ -12,8 +12,8 @@ CHECKS = {
         note="Trusts CBMC's C front end/bit-blasting and the SAT solver; little-endian x86-64 target as configured; harness reference definitions of base-128 and little-endian.",
         ref="DESIGN.md 4 C16"),
     "C20": dict(
-        text="Solver verdict over every outcome sequence of write(2) (EINTR, hard error, 0, any partial count) for the real _write_all, buffers up to 16 bytes and up to 12 write calls, plus a call-graph obligation (write is reached only through _write_all) regenerated from the goto program on every run.",
-        note="write(2) is a contract stub; more than 12 calls per buffer and longer buffers are outside the bound; composition to whole files rests on the call-graph obligation.",
+        text="Solver verdict over every outcome sequence of write(2) (EINTR, hard error, 0, any partial count) for the real _write_all, buffers up to 16 bytes and up to 12 write calls, plus the real _mtbl_writer_write_block under every EINTR/short-write sequence (the byte count it reports for offsets, index entries and trailer equals the bytes appended), plus a call-graph obligation (write is reached only through _write_all) regenerated from the goto program on every run.",
+        note="write(2) is a contract stub; more than 12 calls per buffer and longer buffers are outside the bound; composition to whole files rests on the call-graph obligation and on the write_block query (no information flows from write(2) outcomes into file content).",
         ref="DESIGN.md 4 C20"),
     "C19": dict(
         text="Every byte of the file is a solver variable: for each listed file length CBMC's pointer/bounds checks prove that mtbl_reader_init_fd/mtbl_reader_init touch no byte outside the file, return NULL/a reader/stop, and release the mapping; all 2^(8*len) files of that length are covered at once.",
